@@ -13,6 +13,8 @@ import (
 	"bytes"
 	"crypto/ed25519"
 	"crypto/rand"
+	"encoding/binary"
+	"encoding/hex"
 	"errors"
 	"fmt"
 	"net"
@@ -24,6 +26,7 @@ import (
 	"testing"
 	"time"
 
+	"golang.org/x/crypto/curve25519"
 	"pgregory.net/rapid"
 
 	"hop.computer/hop/authkeys"
@@ -37,7 +40,7 @@ import (
 
 // identity of the counterpart (the party being judged)
 type c01Ident struct {
-	Chain    int  `json:"chain"`    // 0 trusted chain, 1 chain under an untrusted root, 2 self-signed leaf, 3 trusted leaf but unrelated intermediate presented, 4 trusted leaf, no intermediate presented, 5 leaf properly issued by a forged intermediate that names the trusted root as its parent but is not signed by it
+	Chain    int  `json:"chain"`    // 0 trusted chain, 1 chain under an untrusted root, 2 self-signed leaf, 3 trusted leaf but unrelated intermediate presented, 4 trusted leaf, no intermediate presented, 5 leaf properly issued by a forged intermediate that names the trusted root as its parent but is not signed by it, 6 bait (below), 7 hand-signed world with per-element validity windows (below)
 	Time     int  `json:"time"`     // 0 valid, 1 expired, 2 not yet valid
 	TypeLeaf bool `json:"typeLeaf"` // false: an intermediate-typed certificate is presented as the leaf
 	Name     int  `json:"name"`     // names on the leaf, see c01IdentNames: 0 the expected label (raw type), 1 another label, 2 same label but DNS type, 3 several names, the expected raw label last, 4 several names without the expected raw label, 5 only the explicitly empty raw name, 6 no name at all, 7 only the empty DNS name, 8 the expected label and the empty raw name
@@ -49,6 +52,20 @@ type c01Ident struct {
 	// leaf of the untrusted world, 4 the TRUSTED root, 5 the trusted intermediate. Never signed by a trusted key.
 	Bait       int  `json:"bait,omitempty"`
 	BaitSigned bool `json:"baitSigned,omitempty"` // Bait 1 and 2: the hand-made certificate is signed with the presented certificate's key
+	// Chain == 7 ("hand-signed world"): a root, an intermediate and the leaf written and signed by hand with the proper
+	// keys (the issuing API clamps every certificate to its parent's lifetime; somebody who still holds the key of an
+	// expired CA certificate is not bound by that), so that every element has its OWN validity window: the leaf's is Time,
+	// the intermediate's InterTime, the root's RootTime (0 valid at the judge's clock, 1 expired, 2 not yet valid). The root
+	// is in the judge's trust store whenever the policy has a store. InterWhere: 0 the intermediate is presented in the
+	// handshake, 1 it is held in the judge's store and not presented, 2 both.
+	RootTime   int `json:"rootTime,omitempty"`
+	InterTime  int `json:"interTime,omitempty"`
+	InterWhere int `json:"interWhere,omitempty"`
+	// LowOrder > 0: the certificate names the (LowOrder-1)-th small-order X25519 point (c01LowOrderPoints) as its public
+	// key. Nobody holds a private key for such a point: every scalar maps it to the all-zero string. With HoldsKey the
+	// counterpart does the best anybody can - it uses 32 zero bytes as every static Diffie-Hellman result (through the
+	// keys.Exchangable interface the endpoints take their static key by); without, it uses an unrelated key pair.
+	LowOrder int `json:"lowOrder,omitempty"`
 }
 
 // verification policy of the judging party
@@ -146,10 +163,94 @@ func c01NameOK(policyName, identName int) bool {
 }
 
 type c01Built struct {
-	key      *keys.X25519KeyPair // the key the counterpart actually uses
-	leaf     *certs.Certificate
-	inter    *certs.Certificate
-	certKey  keys.DHPublicKey // the key named in the certificate
+	key     *keys.X25519KeyPair // the key the counterpart actually uses (nil when it uses exch)
+	exch    keys.Exchangable    // low-order certified key: the all-zero "agreement"
+	leaf    *certs.Certificate
+	inter   *certs.Certificate
+	certKey keys.DHPublicKey // the key named in the certificate
+	// Chain 7: the hand-signed root (goes into the judge's trust store) and intermediate (InterWhere 1, 2: goes into the store too)
+	hmRoot, hmInter *certs.Certificate
+}
+
+// exchanger: what the counterpart computes its static Diffie-Hellman results with.
+func (b c01Built) exchanger() keys.Exchangable {
+	if b.exch != nil {
+		return b.exch
+	}
+	return b.key
+}
+
+// c01LowOrderPoints: the small-order points of Curve25519 in X25519's encoding (the list of cr.yp.to/ecdh.html#validate as
+// used by libsodium's blacklist: 0, 1, the two points of order 8, p-1, p, p+1 - the last two being non-canonical encodings
+// of 0 and 1 - and each of them again with the ignored top bit set). Every scalar maps each of them to the all-zero string;
+// c01SelfTest checks that against x/crypto's X25519.
+var c01LowOrderPoints = func() []keys.DHPublicKey {
+	hexes := []string{
+		"0000000000000000000000000000000000000000000000000000000000000000",
+		"0100000000000000000000000000000000000000000000000000000000000000",
+		"e0eb7a7c3b41b8ae1656e3faf19fc46ada098deb9c32b1fd866205165f49b800",
+		"5f9c95bca3508c24b1d0b1559c83ef5b04445cc4581c8e86d8224eddd09f1157",
+		"ecffffffffffffffffffffffffffffffffffffffffffffffffffffffffffff7f",
+		"edffffffffffffffffffffffffffffffffffffffffffffffffffffffffffff7f",
+		"eeffffffffffffffffffffffffffffffffffffffffffffffffffffffffffff7f",
+	}
+	var out []keys.DHPublicKey
+	for _, h := range hexes {
+		b, err := hex.DecodeString(h)
+		if err != nil || len(b) != 32 {
+			panic("verif fixture: bad low-order point " + h)
+		}
+		out = append(out, keys.DHPublicKey(b))
+	}
+	// X25519 ignores the top bit of the u-coordinate: the same seven points with that bit set
+	for _, pt := range out[:7] {
+		pt[31] |= 0x80
+		out = append(out, pt)
+	}
+	return out
+}()
+
+// c01NullExchanger is the static "key" of a counterpart whose certificate names a low-order point: it shares that point
+// and agrees on 32 zero bytes with everybody (which is what x25519(k, point) is for every k).
+type c01NullExchanger struct{ pub keys.DHPublicKey }
+
+func (e *c01NullExchanger) Share() []byte                  { return e.pub[:] }
+func (e *c01NullExchanger) Agree([]byte) ([]byte, error) { return make([]byte, 32), nil }
+
+// c01Window: a validity window relative to the judge's clock (vWorld.Now): 0 contains it, 1 ended before it, 2 begins after it.
+func c01Window(k int) (from, to time.Time) {
+	now := vGetWorld().Now
+	switch k {
+	case 1:
+		return now.Add(-72 * time.Hour), now.Add(-time.Hour)
+	case 2:
+		return now.Add(24 * time.Hour), now.Add(96 * time.Hour)
+	}
+	return now.Add(-time.Hour), now.Add(48 * time.Hour)
+}
+
+// c01HandSignedCA: the root and the intermediate of a hand-signed world (Chain 7), one per (root window, intermediate
+// window), made once per process. Both are properly signed (the root by itself, the intermediate by the root's key).
+type c01HandCA struct {
+	root, inter *certs.Certificate
+	interKey    *keys.SigningKeyPair
+}
+
+var c01HandCAs = map[[2]int]*c01HandCA{}
+
+func c01HandSignedCA(rootTime, interTime int) *c01HandCA {
+	k := [2]int{rootTime, interTime}
+	if ca := c01HandCAs[k]; ca != nil {
+		return ca
+	}
+	rk, ik := keys.GenerateNewSigningKeyPair(), keys.GenerateNewSigningKeyPair()
+	rf, rt := c01Window(rootTime)
+	itf, itt := c01Window(interTime)
+	ca := &c01HandCA{interKey: ik}
+	ca.root = c01HandMade(certs.Root, keys.DHPublicKey(rk.Public), []certs.Name{certs.RawStringName("hand-signed-root")}, &certs.Certificate{}, rk, rf, rt)
+	ca.inter = c01HandMade(certs.Intermediate, keys.DHPublicKey(ik.Public), []certs.Name{certs.RawStringName("hand-signed-intermediate")}, ca.root, rk, itf, itt)
+	c01HandCAs[k] = ca
+	return ca
 }
 
 var (
@@ -230,6 +331,10 @@ func c01HandMade(typ certs.CertificateType, key keys.DHPublicKey, names []certs.
 func c01Build(id c01Ident) c01Built {
 	w := vGetWorld()
 	certKP := keys.GenerateNewX25519KeyPair()
+	if id.LowOrder > 0 {
+		// the certificate names a small-order point; there is no private key (issuers do not look at the key bytes)
+		certKP = &keys.X25519KeyPair{Public: c01LowOrderPoints[(id.LowOrder-1)%len(c01LowOrderPoints)]}
+	}
 	names := c01IdentNames(id.Name)
 	ident := &certs.Identity{PublicKey: certKP.Public, Names: names}
 	// the issuing API requires the parent to be valid at issuance time; the world's CA certificates were
@@ -256,6 +361,22 @@ func c01Build(id c01Ident) c01Built {
 		parent = c01ForgedInter()
 	}
 	switch {
+	case id.Chain == 7:
+		// hand-signed world: every element properly signed, each with its own validity window
+		ca := c01HandSignedCA(id.RootTime, id.InterTime)
+		b.hmRoot = ca.root
+		typ := certs.Leaf
+		if !id.TypeLeaf {
+			typ = certs.Intermediate
+		}
+		lf, lt := c01Window(id.Time)
+		b.leaf = c01HandMade(typ, certKP.Public, names, ca.inter, ca.interKey, lf, lt)
+		if id.InterWhere != 1 {
+			b.inter = ca.inter
+		}
+		if id.InterWhere != 0 {
+			b.hmInter = ca.inter
+		}
 	case id.Chain == 6:
 		// bait: Parent names whatever is presented in the intermediate slot
 		o := c01OtherWorld()
@@ -306,14 +427,59 @@ func c01Build(id c01Ident) c01Built {
 	}
 	b.certKey = certKP.Public
 	b.key = certKP
+	if id.LowOrder > 0 {
+		b.key, b.exch = nil, &c01NullExchanger{pub: certKP.Public}
+	}
 	if !id.HoldsKey {
-		b.key = keys.GenerateNewX25519KeyPair()
+		b.key, b.exch = keys.GenerateNewX25519KeyPair(), nil
 	}
 	return b
 }
 
+// c01Trust puts the CA certificates of a hand-signed world (Chain 7) into the judge's trust store: the root always, the
+// intermediate when the case says the judge holds it. A policy without a store trusts neither.
+func c01Trust(vc *VerifyConfig, p c01Policy, b c01Built) {
+	if vc == nil || !p.Store {
+		return
+	}
+	if b.hmRoot != nil {
+		vc.Store.AddCertificate(b.hmRoot)
+	}
+	if b.hmInter != nil {
+		vc.Store.AddCertificate(b.hmInter)
+	}
+}
+
+// c01ServerIdentity makes the server present b. A server whose static key is not a keys.X25519KeyPair (the null exchanger
+// of a low-order certificate) is configured through the certificate callbacks, exactly as Server.init builds them from the
+// static fields.
+func c01ServerIdentity(scfg *ServerConfig, b c01Built) {
+	if b.exch == nil {
+		scfg.KeyPair, scfg.Certificate, scfg.Intermediate = b.key, b.leaf, b.inter
+		return
+	}
+	tc := &Certificate{Exchanger: b.exch, KEMKeyPair: scfg.KEMKeyPair, Leaf: b.leaf}
+	var err error
+	tc.RawLeaf, err = b.leaf.Marshal()
+	vMust(err)
+	if b.inter != nil {
+		tc.RawIntermediate, err = b.inter.Marshal()
+		vMust(err)
+	}
+	for _, n := range b.leaf.IDChunk.Blocks {
+		tc.HostNames = append(tc.HostNames, n.String())
+	}
+	scfg.KeyPair, scfg.Certificate, scfg.Intermediate = nil, nil, nil
+	scfg.GetCertificate = func(ClientHandshakeInfo) (*Certificate, error) { return tc, nil }
+	scfg.GetCertList = func() ([]*Certificate, error) { return []*Certificate{tc}, nil }
+}
+
 // c01Truth: does the identity satisfy the policy (ground truth from construction)?
 func c01Truth(id c01Ident, p c01Policy, b c01Built) (ok bool, why string) {
+	if id.LowOrder > 0 {
+		// proof of possession is impossible: the point has no private key, its "shared secret" is public
+		return false, "certified-key-is-a-low-order-point"
+	}
 	if !id.HoldsKey {
 		return false, "does-not-hold-certified-key"
 	}
@@ -339,7 +505,14 @@ func c01Truth(id c01Ident, p c01Policy, b c01Built) (ok bool, why string) {
 		// an intermediate-typed certificate issued through IssueIntermediate has the default validity window
 		timeOK = true
 	}
+	if id.Chain == 7 {
+		timeOK = id.Time == 0 // a hand-made certificate has exactly the window asked for, whatever its type
+	}
 	if p.Store && typeLeaf && nameOK && timeOK && id.Chain == 0 {
+		return true, "trusted-chain"
+	}
+	if p.Store && typeLeaf && nameOK && timeOK && id.Chain == 7 && id.InterTime == 0 && id.RootTime == 0 {
+		// properly signed up to a root the judge trusts, every element valid at the judge's clock
 		return true, "trusted-chain"
 	}
 	switch {
@@ -347,8 +520,14 @@ func c01Truth(id c01Ident, p c01Policy, b c01Built) (ok bool, why string) {
 		return false, "not-a-leaf"
 	case !nameOK:
 		return false, "name-mismatch"
-	case id.Chain != 0 || !p.Store:
+	case (id.Chain != 0 && id.Chain != 7) || !p.Store:
 		return false, "untrusted-chain"
+	case !timeOK:
+		return false, "time-invalid"
+	case id.Chain == 7 && id.InterTime != 0:
+		return false, "intermediate-time-invalid"
+	case id.Chain == 7:
+		return false, "root-time-invalid"
 	default:
 		return false, "time-invalid"
 	}
@@ -395,14 +574,15 @@ func c01Scenario(c c01Case, v *vlib.Verdict) (r c01Result) {
 		vc.AuthKeys.AddKey(b.certKey)
 		vc.AuthKeys.RemoveKey(b.certKey)
 	}
+	c01Trust(vc, c.Policy, b)
 	scfg := w.ServerConfig(c.Hidden)
 	ccfg := w.ClientConfig(c.Hidden, false)
 	if c.JudgeClient {
 		// the server is the counterpart with the inconsistent identity; the client judges it
-		scfg.KeyPair, scfg.Certificate, scfg.Intermediate = b.key, b.leaf, b.inter
+		c01ServerIdentity(&scfg, b)
 		ccfg.Verify = *vc
 	} else {
-		ccfg.Exchanger, ccfg.Leaf, ccfg.Intermediate = b.key, b.leaf, b.inter
+		ccfg.Exchanger, ccfg.Leaf, ccfg.Intermediate = b.exchanger(), b.leaf, b.inter
 		scfg.ClientVerify = vc
 		ccfg.Verify.Name = w.ServerName
 	}
@@ -429,7 +609,7 @@ func c01Scenario(c c01Case, v *vlib.Verdict) (r c01Result) {
 			if cli.WriteMsg(msg) == nil {
 				buf := make([]byte, 200)
 				h.SetReadDeadline(time.Now().Add(2 * time.Second))
-				if n, err := h.ReadMsg(buf); err == nil && n > 0 {
+				if _, err := h.ReadMsg(buf); err == nil { // ANY message handed to the application counts, an empty one too
 					r.delivered = true
 				}
 			}
@@ -468,7 +648,12 @@ func c01Run(t *testing.T) func(c c01Case, v *vlib.Verdict) {
 }
 
 func c01Honest(id c01Ident) bool {
-	return id == c01Ident{TypeLeaf: true, HoldsKey: true} || id == c01Ident{TypeLeaf: true, HoldsKey: true, InSet: true}
+	id.InSet = false
+	if id.Chain == 7 {
+		// a hand-signed world whose every element is valid is as good as the issued one, wherever the intermediate is held
+		id.Chain, id.InterWhere = 0, 0
+	}
+	return id == c01Ident{TypeLeaf: true, HoldsKey: true}
 }
 
 // c01NameLabels classifies the degenerate-but-legal expected names.
@@ -579,6 +764,31 @@ func c01Idents() []c01Ident {
 		add(func(i *c01Ident) { i.Chain = 6; i.Bait = bait })
 	}
 	add(func(i *c01Ident) { i.Chain = 6; i.Bait = 1; i.BaitSigned = true })
+	// hand-signed world: each element of the chain outside its validity window ALONE, the intermediate presented by the
+	// peer, held by the judge, or both; and the all-valid controls (sanity: must be served)
+	one := func(f func(*c01Ident)) {
+		x := honest
+		f(&x)
+		out = append(out, x)
+	}
+	add(func(i *c01Ident) { i.Chain = 7; i.InterTime = 1 })
+	one(func(i *c01Ident) { i.Chain = 7; i.InterTime = 2 })
+	one(func(i *c01Ident) { i.Chain = 7; i.InterTime = 1; i.InterWhere = 1 })
+	one(func(i *c01Ident) { i.Chain = 7; i.InterTime = 1; i.InterWhere = 2 })
+	one(func(i *c01Ident) { i.Chain = 7; i.InterTime = 2; i.InterWhere = 2 })
+	one(func(i *c01Ident) { i.Chain = 7; i.RootTime = 1 })
+	one(func(i *c01Ident) { i.Chain = 7; i.RootTime = 2 })
+	one(func(i *c01Ident) { i.Chain = 7; i.Time = 1 })
+	one(func(i *c01Ident) { i.Chain = 7 })
+	one(func(i *c01Ident) { i.Chain = 7; i.InterWhere = 1 })
+	one(func(i *c01Ident) { i.Chain = 7; i.InterWhere = 2 })
+	// a CA-issued leaf naming each small-order point, presented by a counterpart that "agrees" on zeros
+	for k := 1; k <= len(c01LowOrderPoints); k++ {
+		k := k
+		one(func(i *c01Ident) { i.LowOrder = k })
+	}
+	one(func(i *c01Ident) { i.LowOrder = 1; i.InSet = true })
+	one(func(i *c01Ident) { i.LowOrder = 2; i.Chain = 2; i.InSet = true })
 	return out
 }
 
@@ -612,6 +822,42 @@ func TestVerifC01Matrix(t *testing.T) {
 
 // c01SelfTest checks the fixtures the new dimensions rest on (machinery, never a violation).
 func c01SelfTest(t *testing.T) {
+	// every listed point really is of small order: the standard X25519 function (x/crypto, not the code under test)
+	// refuses it for a random scalar, i.e. the shared secret anybody would compute is the all-zero string
+	for i, pt := range c01LowOrderPoints {
+		sc := keys.GenerateNewX25519KeyPair()
+		if out, err := curve25519.X25519(sc.Private[:], pt[:]); err == nil {
+			t.Fatalf("VERIF-MACHINERY point #%d %x is not a small-order point (x25519 gives %x)", i, pt, out)
+		}
+	}
+	// the hand-signed world: with every element valid it verifies under a store holding its root (so a rejection of one
+	// of its variants is due to the window that was moved, not to the hand-made signatures); the reference decision
+	// refuses each moved window alone
+	// (inside a bubble, like every case: the fixture world is dated by the clock of the first bubble)
+	var bad string
+	res := vlib.Bubble(t, 60*time.Second, func() {
+		for _, where := range []int{0, 1, 2} {
+			for _, x := range []struct {
+				rootT, interT, leafT int
+				ok                   bool
+			}{{0, 0, 0, true}, {0, 1, 0, false}, {0, 2, 0, false}, {1, 0, 0, false}, {2, 0, 0, false}, {0, 0, 1, false}, {0, 0, 2, false}} {
+				id := c01Ident{TypeLeaf: true, HoldsKey: true, Chain: 7, RootTime: x.rootT, InterTime: x.interT, Time: x.leafT, InterWhere: where}
+				b := c01Build(id)
+				vc := &VerifyConfig{Store: certs.Store{}}
+				c01Trust(vc, c01Policy{Store: true}, b)
+				err := vc.Store.VerifyLeaf(b.leaf, certs.VerifyOptions{PresentedIntermediate: b.inter, CurrentTime: vGetWorld().Now})
+				if truth, _ := c01Truth(id, c01Policy{Store: true}, b); truth != x.ok {
+					bad = fmt.Sprintf("reference decision for the hand-signed chain %+v is %v", id, truth)
+				}
+				if x.ok && err != nil {
+					bad = fmt.Sprintf("the all-valid hand-signed chain (intermediate where=%d) does not verify: %v", where, err)
+				}
+			}
+		}
+	})
+	if bad != "" || res.Hung || res.Panic != "" {
+		t.Fatalf("VERIF-MACHINERY hand-signed world: %s %s", bad, res.Panic)
+	}
 	if n := certs.RawStringName(""); n.Label == nil || len(n.Label) != 0 {
 		t.Fatalf("VERIF-MACHINERY certs.RawStringName(\"\") does not yield the explicitly empty name (label %#v): the empty-expected-name dimension would be vacuous", n.Label)
 	}
@@ -634,7 +880,7 @@ func c01SelfTest(t *testing.T) {
 
 func c01GenIdent(t *rapid.T) c01Ident {
 	id := c01Ident{
-		Chain:    rapid.SampledFrom([]int{0, 0, 1, 2, 3, 4, 5, 6}).Draw(t, "chain"),
+		Chain:    rapid.SampledFrom([]int{0, 0, 1, 2, 3, 4, 5, 6, 7, 7}).Draw(t, "chain"),
 		Time:     rapid.SampledFrom([]int{0, 0, 1, 2}).Draw(t, "time"),
 		TypeLeaf: rapid.SampledFrom([]bool{true, true, true, false}).Draw(t, "typeLeaf"),
 		Name:     rapid.SampledFrom([]int{0, 0, 0, 1, 2, 3, 4, 5, 6, 7, 8}).Draw(t, "name"),
@@ -646,7 +892,21 @@ func c01GenIdent(t *rapid.T) c01Ident {
 		id.Bait = rapid.IntRange(1, 5).Draw(t, "bait")
 		id.BaitSigned = id.Bait <= 2 && rapid.Bool().Draw(t, "baitSigned")
 	}
+	c01GenExtra(t, &id, 10)
 	return id
+}
+
+// c01GenExtra draws the attributes of the later dimensions: one identity in lowOrderOneIn names a small-order point; a
+// hand-signed world (Chain 7) gets a window per CA certificate and a place for its intermediate.
+func c01GenExtra(t *rapid.T, id *c01Ident, lowOrderOneIn int) {
+	if id.Chain == 7 {
+		id.InterTime = rapid.SampledFrom([]int{0, 1, 1, 2}).Draw(t, "interTime")
+		id.RootTime = rapid.SampledFrom([]int{0, 0, 0, 1, 2}).Draw(t, "rootTime")
+		id.InterWhere = rapid.SampledFrom([]int{0, 0, 1, 2}).Draw(t, "interWhere")
+	}
+	if rapid.IntRange(1, lowOrderOneIn).Draw(t, "lowOrderDie") == 1 {
+		id.LowOrder = rapid.IntRange(1, len(c01LowOrderPoints)).Draw(t, "lowOrder")
+	}
 }
 
 func c01GenPolicy(t *rapid.T, server bool) c01Policy {
@@ -1105,7 +1365,7 @@ func c01rScenario(c c01rCase) (out []c01rStepResult) {
 				if cli.WriteMsg([]byte(fmt.Sprintf("c01 real-clock probe of step %d", i))) == nil {
 					buf := make([]byte, 200)
 					h.SetReadDeadline(time.Now().Add(2 * time.Second))
-					if n, err := h.ReadMsg(buf); err == nil && n > 0 {
+					if _, err := h.ReadMsg(buf); err == nil {
 						r.delivered = true
 					}
 				}
@@ -1249,6 +1509,7 @@ type c01sStep struct {
 	Puppet bool     `json:"puppet,omitempty"` // server judges: the counterpart is the puppet, not the real Client
 	Grant  bool     `json:"grant,omitempty"`  // puppet: told the session ID when it did not see one on the wire
 	SNI    int      `json:"sni,omitempty"`    // server judges: 0 the client asks for the server's name, 1 for a name the host table does not know
+	Forge  uint64   `json:"forge,omitempty"`  // puppet: seed of the tag (and payload) bytes of its forged transport packets
 }
 
 type c01sCase struct {
@@ -1337,7 +1598,7 @@ func c01NewPuppet(n *simnet.Net, addr *net.UDPAddr, b c01Built, sni certs.Name) 
 	hs.duplex.InitializeEmpty()
 	hs.dh = new(dhState)
 	hs.dh.ephemeral.Generate()
-	hs.dh.static = b.key // the key the puppet really holds
+	hs.dh.static = b.exchanger() // the key the puppet really holds (or the null exchanger of a low-order certificate)
 	hs.kem = new(kemState)
 	eph, err := keys.GenerateKEMKeyPair(rand.Reader)
 	vMust(err)
@@ -1479,6 +1740,28 @@ func (p *c01Puppet) sendData() {
 	}
 }
 
+// c01ForgedLens: payload lengths of the forged packets: none, one byte, across a block boundary, a few blocks.
+var c01ForgedLens = []int{0, 1, 17, 64}
+
+// sendForged sends transport packets for the session ID the puppet learnt that are sealed under NO key at all: header,
+// session ID, a counter, payload bytes and a tag that are just (seeded) random bytes - what somebody sends who knows
+// nothing but the public session ID. Whatever the lengths, none may ever reach the application.
+func (p *c01Puppet) sendForged(seed uint64) int {
+	n := 0
+	for i, l := range c01ForgedLens {
+		for _, count := range []uint64{uint64(len(p.cuts) + i), 1 << 40} { // right after the sealed ones / far ahead
+			pkt := make([]byte, 0, HeaderLen+SessionIDLen+CounterLen+l+TagLen)
+			pkt = append(pkt, byte(MessageTypeTransport), 0, 0, 0)
+			pkt = append(pkt, p.sid[:]...)
+			pkt = binary.BigEndian.AppendUint64(pkt, count)
+			pkt = append(pkt, vlib.Fill(seed+uint64(n), l+TagLen)...)
+			p.send(pkt)
+			n++
+		}
+	}
+	return n
+}
+
 // --- scenario
 
 type c01sResult struct {
@@ -1487,6 +1770,7 @@ type c01sResult struct {
 	got     string // what the application read
 	learnt  string // how the puppet came by the session ID
 	tried   int    // key sets the puppet tried
+	forged  int    // forged (unsealed) transport packets the puppet sent
 }
 
 func c01sSNI(k int) certs.Name {
@@ -1519,6 +1803,7 @@ func c01sScenario(c c01sCase) (out []c01sResult) {
 				vc.AuthKeys.AddKey(builts[i].certKey)
 				vc.AuthKeys.RemoveKey(builts[i].certKey)
 			}
+			c01Trust(vc, c.Policy, builts[i])
 		}
 	}
 	handshake := func(cli *Client) (err error) {
@@ -1538,7 +1823,7 @@ func c01sScenario(c c01sCase) (out []c01sResult) {
 		for i := range c.Steps {
 			b := builts[i]
 			scfg := w.ServerConfig(c.Hidden)
-			scfg.KeyPair, scfg.Certificate, scfg.Intermediate = b.key, b.leaf, b.inter
+			c01ServerIdentity(&scfg, b)
 			env := vStartServer(scfg)
 			ccfg := w.ClientConfig(c.Hidden, false)
 			ccfg.Verify = *vc // a copy of the one value: the store's map and the key set are shared
@@ -1573,7 +1858,7 @@ func c01sScenario(c c01sCase) (out []c01sResult) {
 			r.cliErr = fmt.Errorf("puppet")
 		} else {
 			ccfg := w.ClientConfig(c.Hidden, false)
-			ccfg.Exchanger, ccfg.Leaf, ccfg.Intermediate = b.key, b.leaf, b.inter
+			ccfg.Exchanger, ccfg.Leaf, ccfg.Intermediate = b.exchanger(), b.leaf, b.inter
 			ccfg.Verify.Name = c01sSNI(st.SNI)
 			if st.SNI != 0 {
 				ccfg.Verify.InsecureSkipVerify = true // this client asks for another host and takes whatever certificate comes
@@ -1625,6 +1910,7 @@ func c01sScenario(c c01sCase) (out []c01sResult) {
 			if pup.haveSid {
 				r.tried = len(pup.cuts)
 				pup.sendData()
+				r.forged = pup.sendForged(st.Forge)
 			}
 		} else if r.cliErr == nil {
 			cli.WriteMsg([]byte(fmt.Sprintf("c01 probe payload of step %d", i)))
@@ -1632,9 +1918,12 @@ func c01sScenario(c c01sCase) (out []c01sResult) {
 		for _, h := range mine {
 			buf := make([]byte, 300)
 			h.SetReadDeadline(time.Now().Add(time.Second))
-			if n, err := h.ReadMsg(buf); err == nil && n > 0 {
+			if n, err := h.ReadMsg(buf); err == nil { // ANY message handed to the application counts, an empty one too
 				r.delivered = true
 				r.got = string(buf[:n])
+				if n == 0 {
+					r.got = "(an empty message)"
+				}
 			}
 			h.Close()
 		}
@@ -1689,7 +1978,7 @@ func c01sRun(t *testing.T) func(c c01sCase, v *vlib.Verdict) {
 			}
 			where := fmt.Sprintf(" [handshake #%d of %d against one verifier; earlier identities: %+v", i, len(rs), c.Steps[:i])
 			if st.Puppet {
-				where += fmt.Sprintf("; the counterpart is the puppet, session ID %q, %d key sets tried", r.learnt, r.tried)
+				where += fmt.Sprintf("; the counterpart is the puppet, session ID %q, %d key sets tried, %d forged packets (random tag, payload lengths %v) sent", r.learnt, r.tried, r.forged, c01ForgedLens)
 			}
 			if r.got != "" {
 				where += fmt.Sprintf("; the application read %q", r.got)
@@ -1728,6 +2017,12 @@ func c01sRun(t *testing.T) func(c c01sCase, v *vlib.Verdict) {
 				if r.tried > 0 && r.learnt != "" {
 					v.Label("puppet:session-id-from-" + r.learnt)
 				}
+				if r.forged > 0 {
+					v.Label("puppet:forged-packets-sent")
+				}
+				if st.Ident.LowOrder > 0 {
+					v.Label("puppet:low-order-certified-key")
+				}
 				if !st.Ident.HoldsKey && r.tried > 0 {
 					v.Label("puppet:impostor-sent-data")
 					if r.fault {
@@ -1757,7 +2052,7 @@ func c01sGenIdent(t *rapid.T) c01Ident {
 	// near-valid identities: every attribute is mostly at its valid value, so that sequences of "almost acceptable" peers
 	// are common; chains under the untrusted root and baits pointing at it are frequent
 	id := c01Ident{
-		Chain:    rapid.SampledFrom([]int{0, 0, 1, 1, 1, 6, 6, 6, 2, 3, 4, 5}).Draw(t, "chain"),
+		Chain:    rapid.SampledFrom([]int{0, 0, 1, 1, 1, 6, 6, 6, 2, 3, 4, 5, 7, 7}).Draw(t, "chain"),
 		Time:     rapid.SampledFrom([]int{0, 0, 0, 0, 0, 1, 2}).Draw(t, "time"),
 		TypeLeaf: rapid.SampledFrom([]bool{true, true, true, true, true, true, true, false}).Draw(t, "typeLeaf"),
 		Name:     rapid.SampledFrom([]int{0, 0, 0, 0, 0, 3, 8, 1, 2, 5}).Draw(t, "name"),
@@ -1769,6 +2064,7 @@ func c01sGenIdent(t *rapid.T) c01Ident {
 		id.Bait = rapid.SampledFrom([]int{1, 1, 1, 2, 3, 4, 5}).Draw(t, "bait")
 		id.BaitSigned = id.Bait <= 2 && rapid.Bool().Draw(t, "baitSigned")
 	}
+	c01GenExtra(t, &id, 10)
 	return id
 }
 
@@ -1819,9 +2115,11 @@ func c01fGen(t *rapid.T) c01sCase {
 		if rapid.SampledFrom([]int{0, 0, 1}).Draw(t, "kind") == 0 {
 			// the classic impostor (or, with the key, the honest peer): the victim's valid chain
 			st.Ident = c01Ident{TypeLeaf: true, HoldsKey: rapid.SampledFrom([]bool{false, false, true}).Draw(t, "holdsKey"), InSet: rapid.SampledFrom([]bool{false, false, true}).Draw(t, "inSet")}
+			c01GenExtra(t, &st.Ident, 5) // ... or a valid chain for a key nobody can hold
 		} else {
 			st.Ident = c01sGenIdent(t)
 		}
+		st.Forge = rapid.Uint64().Draw(t, "forge")
 		st.Grant = rapid.Bool().Draw(t, "grant")
 		st.SNI = rapid.SampledFrom([]int{0, 0, 0, 0, 0, 1}).Draw(t, "sni")
 		return st
